@@ -514,12 +514,12 @@ func c14TagsBucket(tx *bbolt.Tx, w *c14World, mask int) *boltz.TypedBucket {
 	return b
 }
 
-func c14Cursors(dir string, out *c14Out, depth, depthThin, depthDeep int) error {
+// c14CursorWorld builds the data of the C lines (and of the M lines, c14_multi.go) and the cursor kinds over it
+func c14CursorWorld(dir string) (*bbolt.DB, *c14World, []c14Kind, error) {
 	db, err := bbolt.Open(filepath.Join(dir, "cursors.db"), 0o600, nil)
 	if err != nil {
-		return err
+		return nil, nil, nil, err
 	}
-	defer db.Close()
 	w := c14NewWorld("w")
 
 	// data: raw buckets raw/<mask> and typed buckets typed/<mask>; holders h<mask> with tags = subset of the
@@ -640,6 +640,20 @@ func c14Cursors(dir string, out *c14Out, depth, depthThin, depthDeep int) error 
 		mk: func(tx *bbolt.Tx, w *c14World, mask int) func() ast.SetCursor {
 			return func() ast.SetCursor { return w.tagsSym.GetRuntimeSymbol().OpenCursor(tx, []byte(c14Holder(mask))) }
 		}})
+	return db, w, kinds, nil
+}
+
+func c14Cursors(dir string, out *c14Out, depth, depthThin, depthDeep int) error {
+	db, w, kinds, err := c14CursorWorld(dir)
+	if err != nil {
+		return err
+	}
+	defer db.Close()
+	rawB := func(tx *bbolt.Tx, mask int) *bbolt.Bucket { return tx.Bucket([]byte("raw")).Bucket([]byte(fmt.Sprint(mask))) }
+	typedB := func(tx *bbolt.Tx, mask int) *bbolt.Bucket {
+		return tx.Bucket([]byte("typed")).Bucket([]byte(fmt.Sprint(mask)))
+	}
+	_ = rawB
 
 	return db.View(func(tx *bbolt.Tx) error {
 		seqsDeep := c14Seqs(c14Targets, depth)
@@ -764,6 +778,8 @@ func c14Cursors(dir string, out *c14Out, depth, depthThin, depthDeep int) error 
 		out.cursorCase("treecursor", true, true, nil, nil, c14NextOnly(2), func() ast.SetCursor {
 			return ast.NewTreeCursor(&llrb.Tree{})
 		}, c14SeekPlain)
+		// several cursors alive at once, interleaved step by step (c14_multi.go)
+		c14Multi(tx, w, out, kinds, depthDeep > 0)
 		return nil
 	})
 }
@@ -943,6 +959,8 @@ func c14Replay(dir string, out *c14Out, line string) error {
 	switch next() {
 	case "R", "S":
 		return c14ReplayReuse(sub, out, line)
+	case "M":
+		return c14ReplayMulti(sub, out, line)
 	case "I":
 		return c14ReplayScan(sub, out, line)
 	case "B":
